@@ -16,10 +16,13 @@ Theorem C01_source_hooks_symmetric : hooks_symmetric gen_table = true.
 Proof. exact gen_symmetric. Qed.
 Print Assumptions C01_source_hooks_symmetric.
 
-(* ... none of a serializer's layers is missing on any path, and msgpack's ext_hook decodes each
-   ExtType code with the constructor matching what default() encoded under that code. *)
-Theorem C01_source_hooks_complete : hooks_complete gen_table = true /\ ext_codes_match = true.
-Proof. exact (conj gen_complete codes_ok). Qed.
+(* ... none of a serializer's layers is missing on any path, msgpack's ext_hook decodes each
+   ExtType code with the constructor matching what default() encoded under that code, and the byte
+   codec of every ExtType payload (complex, big integer, datetime, date) is the one for which
+   "ext_hook inverts default" is the assumption validated by the correspondence run. *)
+Theorem C01_source_hooks_complete :
+  hooks_complete gen_table = true /\ ext_codes_match = true /\ ext_codecs_known = true.
+Proof. exact (conj gen_complete (conj codes_ok codecs_known)). Qed.
 Print Assumptions C01_source_hooks_complete.
 
 (* The mapping is the same for arguments as for results: for every hook table with the same layers
